@@ -401,6 +401,38 @@ def r13_continue(s, file, log):
     return s
 
 
+def r14_array_patterns(s, file, log):
+    """let [a, b, c] = E;   ->   let vx_arrN = E; let a = vx_arrN[0]; let b = vx_arrN[1]; let c = vx_arrN[2];
+    (Verus: "slice patterns" unsupported).  Same values when the element type is Copy — which rustc checks on the
+    rewritten text; a non-Copy element type makes the text ill-typed and the run undecided."""
+    n = 0
+    while True:
+        m = rp.mask(s)
+        mm = re.search(r'\blet\s*\[\s*((?:mut\s+)?\w+(?:\s*,\s*(?:mut\s+)?\w+)*)\s*,?\s*\]\s*=', m)
+        if not mm:
+            break
+        # end of statement: `;` at depth 0
+        d = 0
+        k = mm.end()
+        while k < len(m):
+            ch = m[k]
+            if ch in '([{':
+                d += 1
+            elif ch in ')]}':
+                d -= 1
+            elif ch == ';' and d == 0:
+                break
+            k += 1
+        n += 1
+        names = [x.strip() for x in mm.group(1).split(',')]
+        tmp = 'vx_arr%d' % n
+        expr = s[mm.end():k]
+        new = 'let %s =%s;' % (tmp, expr) + ''.join(' let %s = %s[%d];' % (nm, tmp, i) for i, nm in enumerate(names))
+        log.add('R14:array-pattern', file, rp.line_of(s, mm.start()), mm.group(1)[:40])
+        s = s[:mm.start()] + new + s[k + 1:]
+    return s
+
+
 SYN_NL = '\x01'   # synthetic newline added by a rewrite rule (does not advance the source line counter)
 
 
@@ -500,6 +532,7 @@ def extract_file(repo_src, file, log):
     s = r10_assert_eq(s, file, log)
     s = r11_drop(s, file, log)
     s = r13_continue(s, file, log)
+    s = r14_array_patterns(s, file, log)
     s = r12_msm_args(s, file, log)
     return finish_linemap(s)
 
